@@ -23,7 +23,7 @@ func init() {
 }
 
 type errLink struct {
-	pkg, fn string
+	pkg, fn string // fn: "role:<name>" or an exported method name
 	callee  P
 	what    string
 }
@@ -35,31 +35,36 @@ func runC04(c *Ctx) {
 
 	// ---- E1 error chain -------------------------------------------------------------------
 	links := []errLink{
-		{ipnisyncPkg, "Syncer.fetch", Call("net/http.Client).Do"), "HTTP round trip"},
-		{ipnisyncPkg, "Syncer.fetch", Call("net/http.NewRequestWithContext"), "request construction"},
-		{ipnisyncPkg, "Syncer.fetch", Op("dyncall", "", Op("param", "")), "response callback"},
-		{ipnisyncPkg, "Syncer.fetchBlock", Call("ipnisync.Syncer).fetch"), "block request"},
-		{ipnisyncPkg, "Syncer.fetchBlock", Op("dyncall", "", Field("StorageWriteOpener", Any())), "store write opener"},
-		{ipnisyncPkg, "Syncer.fetchBlock", Call("go-multihash.SumStream"), "digest of streamed body"},
-		{ipnisyncPkg, "Syncer.fetchBlock", Op("dyncall", "", Extract("1", Op("dyncall", "", Field("StorageWriteOpener", Any())))), "store commit"},
-		{ipnisyncPkg, "Syncer.walkFetch", Call("ipnisync.Syncer).fetchBlock"), "verified block fetch in the read opener"},
-		{ipnisyncPkg, "Syncer.walkFetch", Op("dyncall", "", Field("StorageReadOpener", Any())), "read from the real store"},
-		{ipnisyncPkg, "Syncer.walkFetch", Call("linking.LinkSystem).Load"), "root load"},
-		{ipnisyncPkg, "Syncer.walkFetch", Call("traversal.Progress).WalkMatching"), "selector walk"},
-		{ipnisyncPkg, "Syncer.Sync", Call("ipnisync.Syncer).walkFetch"), "traversal"},
+		{ipnisyncPkg, "role:ipnisync.request", Call("net/http.Client).Do"), "HTTP round trip"},
+		{ipnisyncPkg, "role:ipnisync.request", Call("net/http.NewRequestWithContext"), "request construction"},
+		{ipnisyncPkg, "role:ipnisync.request", Op("dyncall", "", Op("param", "")), "response callback"},
+		{ipnisyncPkg, "role:ipnisync.blockfetch", c.RoleCall("ipnisync.request"), "block request"},
+		{ipnisyncPkg, "role:ipnisync.blockfetch", Op("dyncall", "", Field("StorageWriteOpener", Any())), "store write opener"},
+		{ipnisyncPkg, "role:ipnisync.blockfetch", Call("go-multihash.SumStream"), "digest of streamed body"},
+		{ipnisyncPkg, "role:ipnisync.blockfetch", Op("dyncall", "", Extract("1", Op("dyncall", "", Field("StorageWriteOpener", Any())))), "store commit"},
+		{ipnisyncPkg, "role:ipnisync.walk", c.RoleCall("ipnisync.blockfetch"), "verified block fetch in the read opener"},
+		{ipnisyncPkg, "role:ipnisync.walk", Op("dyncall", "", Field("StorageReadOpener", Any())), "read from the real store"},
+		{ipnisyncPkg, "role:ipnisync.walk", Call("linking.LinkSystem).Load"), "root load"},
+		{ipnisyncPkg, "role:ipnisync.walk", Call("traversal.Progress).WalkMatching"), "selector walk"},
+		{ipnisyncPkg, "Syncer.Sync", c.RoleCall("ipnisync.walk"), "traversal"},
 		{ipnisyncPkg, "Syncer.Sync", Call("selector.CompileSelector"), "selector compilation"},
-		{ipnisyncPkg, "Syncer.GetHead", Call("ipnisync.Syncer).fetch"), "head request"},
+		{ipnisyncPkg, "Syncer.GetHead", c.RoleCall("ipnisync.request"), "head request"},
 		{ipnisyncPkg, "Syncer.GetHead", Call("head.SignedHead).Validate"), "head validation"},
-		{dagsyncPkg, "handler.handle", Invoke("dagsync.Syncer.Sync"), "sync client"},
-		{dagsyncPkg, "Subscriber.SyncAdChain", Call("dagsync.handler).handle"), "per-publisher sync"},
+		{dagsyncPkg, "role:dagsync.handle", Invoke("dagsync.Syncer.Sync"), "sync client"},
+		{dagsyncPkg, "Subscriber.SyncAdChain", c.RoleCall("dagsync.handle"), "per-publisher sync"},
 		{dagsyncPkg, "Subscriber.SyncAdChain", Invoke("dagsync.Syncer.GetHead"), "head query"},
-		{dagsyncPkg, "Subscriber.SyncAdChain", Call("dagsync.handler).makeSyncer"), "sync client construction"},
-		{dagsyncPkg, "Subscriber.syncEntries", Call("dagsync.handler).handle"), "per-publisher sync"},
-		{dagsyncPkg, "Subscriber.syncEntries", Call("dagsync.handler).makeSyncer"), "sync client construction"},
+		{dagsyncPkg, "Subscriber.SyncAdChain", c.RoleCall("dagsync.factory"), "sync client construction"},
+		{dagsyncPkg, "Subscriber.syncEntries", c.RoleCall("dagsync.handle"), "per-publisher sync"},
+		{dagsyncPkg, "Subscriber.syncEntries", c.RoleCall("dagsync.factory"), "sync client construction"},
 	}
 	for _, l := range links {
-		fn := c.Func(l.pkg, l.fn)
-		key0 := l.pkg + "." + l.fn + " ← " + l.what
+		var fn *Fn
+		if strings.HasPrefix(l.fn, "role:") {
+			fn = c.RoleFn(strings.TrimPrefix(l.fn, "role:"))
+		} else {
+			fn = c.Func(l.pkg, l.fn)
+		}
+		key0 := l.pkg + " " + strings.TrimPrefix(l.fn, "role:") + " ← " + l.what
 		if fn == nil {
 			c.Unk("C04.E1-error-chain", key0, token.NoPos, "function of the chain not found")
 			continue
@@ -96,7 +101,7 @@ func runC04(c *Ctx) {
 	nW := 0
 	handle := c15HandleFn(c)
 	for _, f := range c.Funcs(dagsyncPkg) {
-		for _, cs := range c.Calls(f.SSA, Call("latestSyncHandler).setLatestSync")) {
+		for _, cs := range c.Calls(f.SSA, c.RoleCall("latest.set")) {
 			nW++
 			top := topFunc(cs.Fn)
 			key := c.short(top.String()) + " › setLatestSync"
@@ -312,7 +317,7 @@ func c04KeptClient(c *Ctx) {
 // no-path form is followed, on every path to an error return of the same
 // request, by the restoring call — unless a response was handed to the callback.
 func c04Fallback(c *Ctx) {
-	fetch := c.Func(ipnisyncPkg, "Syncer.fetch")
+	fetch := c.RoleFn("ipnisync.request")
 	if fetch == nil {
 		c.Unk("C04.E5-fallback-committed-on-success", "ipnisync.(*Syncer).fetch", token.NoPos, "request routine not found")
 		return
